@@ -144,10 +144,14 @@ where
                 // Note that other threads in the region may also be racing to initialize. While
                 // there is mutual exclusion built in, it remains up to us here to detect ordering
                 // issues and reinitialize if an outdated value was set.
-                let initial_value = self.global_state.latest_value.load();
-
-                let expected_generation = initial_value.generation;
-                let actual_generation = regional_state.initialize(&initial_value);
+                //
+                // The latest value is loaded by `initialize()` itself, after it has announced the
+                // initialization in the regional state. Loading it any earlier would allow a
+                // `set_global()` to publish and invalidate in between without being noticed,
+                // so the region would (until the check below) serve the value from before a write
+                // that has already returned - even to the thread that made that write.
+                let (expected_generation, actual_generation) =
+                    regional_state.initialize(&self.global_state.latest_value);
 
                 // The commit will fail if the generation of the value we set does not match
                 // the generation of the value that was initialized. We do not know which one
@@ -465,13 +469,14 @@ where
     /// Initializes the value in this regional state (potentially accepting a value from another
     /// thread already doing the same).
     ///
-    /// Returns the generation of the value that was set. This is not necessarily the same as the
-    /// input value, if we accept initialization from another thread. It is the responsibility of
-    /// the caller to decide whether that is acceptable or not (in which case it can reset).
+    /// Returns the generation of the latest value as seen by this call and the generation of the
+    /// value that was set. These are not necessarily the same if we accept initialization from
+    /// another thread. It is the responsibility of the caller to decide whether that is
+    /// acceptable or not (in which case it can reset).
     // Skip mutating - would lead to infinite loop as it looks just like another thread
     // constantly resetting the value, so the conflict resolver will never finish.
     #[cfg_attr(test, mutants::skip)]
-    fn initialize(&self, value: &GenerationValue<T>) -> u64 {
+    fn initialize(&self, latest_value: &ArcSwap<GenerationValue<T>>) -> (u64, u64) {
         // This is a conditional swap - we only initialize if we can swap in our "initializing"
         // value onto a clean slate. If someone else got there first, we line up behind them
         // and wait for them to finish before we do anything.
@@ -490,16 +495,18 @@ where
                         continue;
                     }
                     RegionalValue::Ready(GenerationValue { generation, .. }) => {
-                        return *generation;
+                        return (latest_value.load().generation, *generation);
                     }
                 }
             }
 
             // Nothing is happening. We may be the first to start initializing.
             let attempt_signal = Arc::new(ManualResetEvent::new(EventState::Unset));
-            let attempt = RegionalValue::<T>::Initializing(Arc::clone(&attempt_signal));
+            let attempt = Some(Arc::new(RegionalValue::<T>::Initializing(Arc::clone(
+                &attempt_signal,
+            ))));
 
-            let previous_value = self.value.compare_and_swap(reader, Some(Arc::new(attempt)));
+            let previous_value = self.value.compare_and_swap(reader, attempt.clone());
 
             if !previous_value.is_none() {
                 // Someone raced ahead of us. Re-enter loop.
@@ -517,15 +524,23 @@ where
                 cleanup_signal.set();
             });
 
-            let new_value = RegionalValue::Ready(value.clone());
+            // Only now that our "initializing" value is in place do we pick the value to
+            // initialize with. A `set_global()` that publishes a newer value after this point
+            // also invalidates the region after this point, which removes our "initializing"
+            // value, so we can tell below that our clone is out of date.
+            let value = latest_value.load();
 
-            // It is possible that another thread has assigned a new global value
-            // while we are doing this, so our `value` is out of date already. We
-            // detect this in the caller by checking (after initialization) whether
-            // the value that was set is of the expected generation. If not, everything
-            // starts all over again for the current thread and it tries to re-initialize.
+            let new_value = RegionalValue::Ready(GenerationValue::clone(&value));
 
-            self.value.store(Some(Arc::new(new_value)));
+            // It is possible that another thread has assigned a new global value while we were
+            // cloning, so our `value` is out of date already. In that case the region has been
+            // invalidated, our "initializing" value is gone and the region must stay invalidated:
+            // the value only becomes ready if it replaces our own "initializing" value. Either
+            // way, the caller checks (after initialization) whether the value that was set is
+            // still the latest one. If not, everything starts all over again for the current
+            // thread and it tries to re-initialize.
+            self.value
+                .compare_and_swap(&attempt, Some(Arc::new(new_value)));
 
             // We are done initializing. Notify all waiters that they can continue.
             attempt_signal.set();
@@ -533,7 +548,7 @@ where
             // Disarm the cleanup guard since initialization succeeded.
             scopeguard::ScopeGuard::into_inner(cleanup_guard);
 
-            return value.generation;
+            return (value.generation, value.generation);
         }
     }
 
